@@ -41,6 +41,24 @@ CHECKS = {
     "C11": ("exploration", "differential monitor against the reference (OLPC) encoding with OpenSSL as foreign party",
             "Library signatures must equal/verify over Python-computed reference bytes; reference-bytes signatures (raw signer, OpenSSL) must be accepted; key ids recomputed.",
             "olpc_canon() matches securesystemslib; OpenSSL CLI correct; ed25519 determinism", "5 C11"),
+    "C12": ("exploration", "cross-path identity monitor with OpenSSL encodings as the interoperability reference",
+            "Every public-key construction path for pool keys (thorough: +120 fresh OpenSSL keys): ids equal across paths, equal to an independent SHA-256 of the reference encoding, stable across JSON; OpenSSL's SPKI must import and re-export byte-identically; parsed key tables and end-to-end aliasing scenarios.",
+            "OpenSSL's SubjectPublicKeyInfo is the standards-conformant reference; olpc_canon + SHA-256 in Python", "5 C12"),
+    "C14": ("exploration", "crash monitor (catch_unwind + supervised sub-processes) + ASan, valgrind memcheck, Miri and libFuzzer passes",
+            "28 entry points + rule application + final-product verification over hostile link directories, fed random bytes, byte/JSON mutations and well-typed adversarial documents; process death / CPU-limit kills are reproduced in isolation; thorough repeats the corpus under ASan, plain release, valgrind and Miri and runs 4 coverage-guided fuzz targets.",
+            "panic / abort / CPU-limit are the crash events; ring's C/asm is not instrumented by ASan and not reachable by Miri; wall-clock watchdogs are inconclusive", "5 C14"),
+    "C16": ("exploration", "round-trip monitor over schema-generated documents with tree comparison",
+            "Accepted documents of every wire type: 4 writers x (parse back equal, re-serialise byte-identical) and comparison of the re-serialised tree with the input after the documented normalisations.",
+            "normalise() lists the documented normalisations; out-of-domain inputs are listed in the evidence", "5 C16"),
+    "C17": ("exploration", "differential monitor across decoding channels and spellings",
+            "Valid and mutated documents of 14 public types x 3 spellings x 8 decoding channels: one outcome class and one value per document.",
+            "serde_json::Value parsing defines 'same content'", "5 C17"),
+    "C18": ("exploration", "reference-walk monitor over generated directory trees and commands",
+            "record_artifacts / in_toto_run on generated trees (symlinks, chains, cycles, odd names, sizes around the read buffer) compared with an independent os/hashlib walk; cyclic trees are checked with bounds.",
+            "os.stat/os.listdir/hashlib walk is the reference; dangling links, non-UTF-8 names, special files out of domain", "5 C18"),
+    "C19": ("exploration", "schema-driven monitor with per-version acceptance lists (hook) and metamorphic timestamp check",
+            "Documents from the wire schemas of all statement/predicate versions incl. every optional-field subset and every (declared, actual) type pair: exactly one accepting version, canonical form parses back equal (timestamps to the nanosecond), declared==actual, from_meta carries fields over.",
+            "generator schemas transliterate the serde attributes; hook per-version parsers are the library's own", "5 C19"),
     "C13": ("exploration", "repetition monitor over fresh hash seeds and fresh processes",
             "Order-sensitive scenarios verified R x P times; exactly one (verdict, summary) outcome allowed; distinct iteration orders actually experienced are recorded.",
             "std RandomState gives fresh keys per map/process", "5 C13"),
@@ -52,14 +70,7 @@ CHECKS = {
             "DSSE v1 PAE definition as transliterated", "5 C20"),
 }
 
-NOT_YET = {
-    "C12": "monitor under construction (key identity / SPKI interop)",
-    "C14": "monitor under construction (crash monitor + sanitizers)",
-    "C16": "monitor under construction (wire round trip)",
-    "C17": "monitor under construction (decoding channels)",
-    "C18": "monitor under construction (artifact recording)",
-    "C19": "monitor under construction (attestation formats)",
-}
+NOT_YET = {}
 
 
 def main():
